@@ -225,7 +225,7 @@ pub fn prop() -> HistProp {
         weights: w,
         min_ops: 5,
         max_ops: (40, 100),
-        cases: (12_000, 400_000),
+        cases: (20_000, 400_000),
         make: || Box::new(Mon::default()),
         rule: "histories interleaving engine UpdateConfig (single fields, initial+maintenance together, values 0 / 1 / D-1 / D / D+1 / 2D / relative to the other ratio +-1), vAMM UpdateConfig (toll, spread, fluctuation limit, caps around the current exposure, TWAP interval 0/59/60/604800/604801), whitelist edits, AddVamm/RemoveVamm of matching vAMMs and of a vAMM with different decimals, with trades by whitelisted and non-whitelisted traders. After every successful position-increasing OpenPosition by a non-whitelisted trader on a vAMM with a non-zero cap: engine State.open_interest_notional <= cap, |size| <= holding cap. For a whitelisted trader the same call is also run on a what-if twin with both caps set to 0: success there implies success here. After every step: the seven stored ratios <= D, maintenance <= initial, 60 <= TWAP interval <= 604800, every vAMM in GetAllVamm has the engine's decimals. Non-trivial: a trade ending within 10% of a cap or rejected for a cap or a whitelisted trade beyond a cap, or an accepted update at a bound / of two interdependent fields. Distinct by digest of (cfg, ops).",
         assumptions: &[],
